@@ -371,6 +371,31 @@ func (sc *scanner) opt(cp bool) {
 		}
 		ol, ow = append(ol, l), append(ow, r.Intn(8))
 	}
+	if r.Intn(3) == 0 {
+		// stars: a centre (weight 2..3) or all of its leaves (weight 1 each) must be paid; the search improves
+		// star by star, several models in a row; a few more cost variables of any weight, fixed by facts
+		cons, ol, ow = nil, nil, nil
+		v := 0
+		for st := 2 + r.Intn(2); st > 0 && v < 9; st-- {
+			v++
+			c := v
+			ol, ow = append(ol, c), append(ow, 2+r.Intn(2))
+			for lf := 3 + r.Intn(2); lf > 0; lf-- {
+				v++
+				ol, ow = append(ol, v), append(ow, 1)
+				cons = append(cons, M{"k": "gteq", "lits": []int{c, v}, "w": []int{1, 1}, "rhs": 1})
+			}
+		}
+		for x := 1 + r.Intn(2); x > 0; x-- {
+			v++
+			ol, ow = append(ol, v), append(ow, 1+r.Intn(6))
+			if r.Intn(4) > 0 {
+				cons = append(cons, M{"k": "gteq", "lits": []int{-v}, "w": []int{1}, "rhs": 1})
+			}
+		}
+		n = v
+		r.Shuffle(len(ol), func(i, j int) { ol[i], ol[j] = ol[j], ol[i]; ow[i], ow[j] = ow[j], ow[i] })
+	}
 	for j := r.Intn(3); j > 0; j-- { // facts about cost literals (either polarity)
 		l := ol[r.Intn(len(ol))]
 		if r.Intn(3) == 0 {
